@@ -32,16 +32,43 @@ RULE = ("screens of single-sample plates: 1-6 samples x 0-6 plates (plate ids in
 # ----------------------------------------------------------------------------------------------
 # screens
 # ----------------------------------------------------------------------------------------------
-def build_screen(plates):
-    """plates: list of {"rows": [sample index per row], "observed": bool}; plate i is named p<i> so its id is i"""
+def gen_opts(rng, plates):
+    """input classes of the hardening checklist, stored in the case so that a replay rebuilds the same screen / call"""
+    ns = 1 + max([x for p in plates for x in p["rows"]] or [0])
+    smap = None
+    if rng.random() < 0.4:
+        smap = list(range(ns)) + [90 + i for i in range(rng.choice([0, 1, 2]))]     # absent names -> gaps in the used sample ids
+        rng.shuffle(smap)
+    return {"interleave": rng.random() < 0.5, "long_names": rng.random() < 0.3, "perm_names": rng.randrange(1, 10 ** 6) if rng.random() < 0.5 else None,
+            "sample_map": smap, "np_ids": rng.random() < 0.4, "warm": rng.random() < 0.5}
+
+
+def build_screen(plates, opts=None):
+    """plates: list of {"rows": [sample index per row], "observed": bool}.  Default: plate i is named p<i> (so its id is i), rows plate by plate.
+    opts (all optional): perm_names -> plate names (hence ids) are a permutation of the construction order; long_names -> names of >= 30
+    characters; interleave -> the rows of a plate are NOT contiguous (round robin over the plates); sample_map -> a supplied sample mapping
+    with permuted ids and names that do not occur (id gaps)."""
+    import random as _random
     from batchie.data import Screen
-    sn, pn, mask = [], [], []
+    opts = opts or {}
+    num = list(range(len(plates)))
+    if opts.get("perm_names"):
+        _random.Random(opts["perm_names"]).shuffle(num)
+    ppre, spre = ("plate_with_a_rather_long_name_", "sample_with_a_rather_long_name_") if opts.get("long_names") else ("p", "s")
+    rows = []
     for i, p in enumerate(plates):
-        for s in p["rows"]:
-            sn.append("s%02d" % s)
-            pn.append("p%03d" % i)
-            mask.append(bool(p["observed"]))
+        for r, s in enumerate(p["rows"]):
+            rows.append((r if opts.get("interleave") else 0, i, s, bool(p["observed"])))
+    if opts.get("interleave"):
+        rows.sort(key=lambda x: (x[0], x[1]))
+    sn = [spre + "%02d" % x[2] for x in rows]
+    pn = [ppre + "%03d" % num[x[1]] for x in rows]
+    mask = [x[3] for x in rows]
     n = len(sn)
+    kw = {}
+    if opts.get("sample_map"):
+        names = np.array([spre + "%02d" % x for x in opts["sample_map"]], dtype=str)
+        kw["sample_mapping"] = (names, np.arange(len(names)))
     return Screen(
         treatment_names=np.array([["a", "b"]] * n, dtype=str).reshape(n, 2),
         treatment_doses=np.array([[1.0, 2.0]] * n, dtype=float).reshape(n, 2),
@@ -49,7 +76,17 @@ def build_screen(plates):
         plate_names=np.array(pn, dtype=str),
         observations=np.array([0.5 if m else 0.0 for m in mask], dtype=float),
         observation_mask=np.array(mask, dtype=bool),
+        **kw
     )
+
+
+def screen_snapshot(screen):
+    """every array attribute of the screen, by introspection"""
+    out = {}
+    for key, v in sorted(vars(screen).items()):
+        if isinstance(v, np.ndarray):
+            out[key] = (str(v.dtype), v.shape, v.tobytes())
+    return out
 
 
 def describe(screen):
@@ -79,12 +116,15 @@ def make_policy(k, log):
         def filter_eligible_plates(self, batch_plates, unobserved_plates, rng):
             entry = {"batch": [int(p.plate_id) for p in batch_plates], "unobs": [int(p.plate_id) for p in unobserved_plates]}
             log.append(entry)
+            b0, u0 = list(batch_plates), list(unobserved_plates)
             try:
                 r = super().filter_eligible_plates(batch_plates, unobserved_plates, rng)
             except Exception as e:  # noqa
                 entry["error"] = type(e).__name__
                 raise
             entry["eligible"] = [int(p.plate_id) for p in r]
+            entry["args_changed"] = (len(b0) != len(batch_plates) or any(x is not y for x, y in zip(b0, batch_plates)) or
+                                     len(u0) != len(unobserved_plates) or any(x is not y for x, y in zip(u0, unobserved_plates)))
             return r
 
     return Recording(k)
@@ -106,7 +146,32 @@ def make_scores(desc, eligible, target):
     return h
 
 
-def call_select(screen, desc, k, batch, eligible_hint=(), target=None, shared=None):
+MUTATIONS = []
+
+
+def check_mutations(res, case):
+    if MUTATIONS:
+        res.fail("select_next_plate / the policy changes its arguments (screen arrays, batch id list, plate lists)", case, MUTATIONS[0], "arguments unchanged",
+                 signature="C16:input-mutation")
+        del MUTATIONS[:]
+        return False
+    return True
+
+
+DECOY = [{"rows": [0], "observed": False}, {"rows": [1, 1], "observed": False}, {"rows": [0], "observed": False}, {"rows": [1], "observed": False},
+         {"rows": [0], "observed": True}, {"rows": [1], "observed": False}, {"rows": [0], "observed": False}]
+
+
+def warm_policy(shared, k):
+    """class object-reuse: before it serves a history, the policy object answers calls about ANOTHER screen (other samples, other counts)"""
+    scr = build_screen(DECOY)
+    d = describe(scr)
+    el, err, _ = call_select(scr, d, k, [], shared=shared)
+    if el:
+        call_select(scr, d, k, [el[-1]], shared=shared)
+
+
+def call_select(screen, desc, k, batch, eligible_hint=(), target=None, shared=None, np_ids=False):
     """real select_next_plate; returns (eligible ids | None, error class | None, returned plate id | None).
     `shared` = (policy, log): ONE policy object used for every call of a history (and of its later rounds); default a new one per call."""
     from batchie.scoring.main import select_next_plate
@@ -117,10 +182,16 @@ def call_select(screen, desc, k, batch, eligible_hint=(), target=None, shared=No
         log = []
         pol = make_policy(k, log)
     scores = make_scores(desc, set(eligible_hint), target)
+    ids = [np.int64(x) for x in batch] if np_ids else list(batch)
+    ids0 = list(ids)
+    snap = screen_snapshot(screen)
     try:
-        r = select_next_plate(scores=scores, screen=screen, policy=pol, batch_plate_ids=list(batch), rng=np.random.default_rng(0))
+        r = select_next_plate(scores=scores, screen=screen, policy=pol, batch_plate_ids=ids, rng=np.random.default_rng(0))
     except Exception as e:  # noqa
         return (log[-1].get("eligible") if log else None), type(e).__name__, None
+    if screen_snapshot(screen) != snap or ids != ids0 or (log and log[-1].get("args_changed")):
+        MUTATIONS.append({"screen_changed": screen_snapshot(screen) != snap, "batch_ids_changed": ids != ids0,
+                          "policy_argument_lists_changed": bool(log and log[-1].get("args_changed"))})
     el = log[-1]["eligible"] if log else None
     return el, None, (None if r is None else int(r.plate_id))
 
@@ -230,16 +301,54 @@ def pick(rng, strat, desc, batch, el):
     return rng.choice(el)
 
 
-def run_history(ctx, res, plates, k, strat, rng, lines, expect, meta, max_len=40, picks=None, rounds=1, reuse=False, prior=None):
+def count_state_classes(res, desc, k, batch, el):
+    """class falsy-boundaries: id 0 where a truthiness test would go wrong"""
+    byid = {d[0]: d for d in desc}
+    cnt = {}
+    for pid in batch:
+        if len(byid[pid][1]) == 1:
+            cnt[byid[pid][1][0]] = cnt.get(byid[pid][1][0], 0) + 1
+    if k >= 2 and 0 < cnt.get(0, 0) < k:
+        res.count("class.falsy-boundaries")
+        res.count("falsy.sample_id_0_in_progress")
+    if 0 in batch or (el and 0 in el):
+        res.count("falsy.plate_id_0_in_batch_or_eligible")
+    if k == 1 and batch:
+        res.count("falsy.k1_nonempty_batch")
+    if len(batch) >= 3:
+        res.count("class.size-boundaries")          # third and later selections of a batch
+    if len(desc) >= 11 and batch and max(batch) >= 10:
+        res.count("class.size-boundaries")          # two-digit plate ids in the batch
+
+
+def count_opts_classes(res, opts, reuse):
+    opts = opts or {}
+    if reuse:
+        res.count("class.object-reuse")
+    res.count("class.input-mutation")
+    if opts.get("np_ids") or opts.get("long_names"):
+        res.count("class.layout-dtype")
+    if opts.get("sample_map") or opts.get("perm_names"):
+        res.count("class.non-default-ids")
+    if opts.get("interleave"):
+        res.count("class.row-orderings")
+
+
+def run_history(ctx, res, plates, k, strat, rng, lines, expect, meta, max_len=40, picks=None, rounds=1, reuse=False, prior=None, opts=None):
     """drive the real select_next_plate from the empty batch; returns number of states visited.
     rounds > 1: when a batch is finished its plates are marked observed with the real Screen.set_observed and the next batch starts
     from the empty batch on the SAME Screen object.  reuse: one policy object serves every call of every round.
     Replay: `prior` = the batches of the earlier rounds (followed pick by pick), `picks` = the picks of the last round."""
-    screen = build_screen(plates)
+    opts = opts or {}
+    screen = build_screen(plates, opts)
+    npi = bool(opts.get("np_ids"))
     shared = None
     if reuse:
         log = []
         shared = (make_policy(k, log), log)
+        if opts.get("warm"):
+            warm_policy(shared, k)
+    count_opts_classes(res, opts, reuse)
     states = 0
     done = []                     # batches of the finished rounds
     forced_rounds = None
@@ -251,14 +360,15 @@ def run_history(ctx, res, plates, k, strat, rng, lines, expect, meta, max_len=40
         n_samples = len(set(s for d in desc for s in d[1]))
         forced = forced_rounds[rnd] if forced_rounds is not None else None
         batch = []
-        case = {"kind": "history", "plates": plates, "k": k, "picks": [], "prior": [list(b) for b in done], "reuse": reuse}
+        case = {"kind": "history", "plates": plates, "k": k, "picks": [], "prior": [list(b) for b in done], "reuse": reuse, "opts": opts}
         stop = False
         while len(batch) <= max_len:
-            el, err, ret0 = call_select(screen, desc, k, batch, shared=shared)
+            el, err, ret0 = call_select(screen, desc, k, batch, shared=shared, np_ids=npi)
             states += 1
             res.evaluations += 1
             c = dict(case, picks=list(batch))
-            ok = oracle_state(res, c, desc, k, batch, el, err, ret0)
+            ok = oracle_state(res, c, desc, k, batch, el, err, ret0) and check_mutations(res, c)
+            count_state_classes(res, desc, k, batch, el)
             if lines is not None:
                 lines.append("select %d %s %s" % (k, plates_tok(desc), ids_tok(batch)))
                 expect.append("err:%s" % err if err else ids_tok(el))
@@ -279,7 +389,7 @@ def run_history(ctx, res, plates, k, strat, rng, lines, expect, meta, max_len=40
                 target = forced[len(batch)]
             else:
                 target = pick(rng, strat, desc, batch, el)
-            el2, err2, ret = call_select(screen, desc, k, batch, eligible_hint=el, target=target, shared=shared)
+            el2, err2, ret = call_select(screen, desc, k, batch, eligible_hint=el, target=target, shared=shared, np_ids=npi)
             if ret != target:
                 res.fail("an eligible plate with the best score among the eligible ones was not selected", dict(c, target=target),
                          ret, target, signature="C16:returned")
@@ -301,9 +411,11 @@ def run_history(ctx, res, plates, k, strat, rng, lines, expect, meta, max_len=40
     return states
 
 
-def explore_all(ctx, res, plates, k, lines, expect, meta, rng, line_rate):
+def explore_all(ctx, res, plates, k, lines, expect, meta, rng, line_rate, opts=None):
     """every reachable batch state (as a set) of one screen"""
-    screen = build_screen(plates)
+    opts = opts or {}
+    npi = bool(opts.get("np_ids"))
+    screen = build_screen(plates, opts)
     desc = describe(screen)
     n_samples = len(set(s for d in desc for s in d[1]))
     seen = set()
@@ -312,17 +424,19 @@ def explore_all(ctx, res, plates, k, lines, expect, meta, rng, line_rate):
     if rng.random() < 0.5:       # one policy object for the whole exploration (states are visited in a non-monotone order)
         plog = []
         shared = (make_policy(k, plog), plog)
-    case0 = {"kind": "history", "plates": plates, "k": k}
+    count_opts_classes(res, opts, shared is not None)
+    case0 = {"kind": "history", "plates": plates, "k": k, "opts": opts, "reuse": shared is not None}
     while stack:
         batch = stack.pop()
         key = frozenset(batch)
         if key in seen:
             continue
         seen.add(key)
-        el, err, ret0 = call_select(screen, desc, k, list(batch), shared=shared)
+        el, err, ret0 = call_select(screen, desc, k, list(batch), shared=shared, np_ids=npi)
         res.evaluations += 1
         c = dict(case0, picks=list(batch))
-        ok = oracle_state(res, c, desc, k, list(batch), el, err, ret0)
+        ok = oracle_state(res, c, desc, k, list(batch), el, err, ret0) and check_mutations(res, c)
+        count_state_classes(res, desc, k, list(batch), el)
         if rng.random() < line_rate:
             lines.append("select %d %s %s" % (k, plates_tok(desc), ids_tok(batch)))
             expect.append("err:%s" % err if err else ids_tok(el))
@@ -333,7 +447,7 @@ def explore_all(ctx, res, plates, k, lines, expect, meta, rng, line_rate):
             continue
         # spot-check that the prescribed-score pick is honoured, then branch on EVERY eligible plate
         t = rng.choice(el)
-        _, _, ret = call_select(screen, desc, k, list(batch), eligible_hint=el, target=t, shared=shared)
+        _, _, ret = call_select(screen, desc, k, list(batch), eligible_hint=el, target=t, shared=shared, np_ids=npi)
         if ret != t:
             res.fail("an eligible plate with the best score among the eligible ones was not selected", dict(c, target=t), ret, t, signature="C16:returned")
             continue
@@ -378,7 +492,8 @@ def run(ctx, res):
         reuse = rng.random() < 0.5
         res.count("history.rounds%d" % rounds)
         res.count("history.policy_object_%s" % ("reused" if reuse else "fresh_per_call"))
-        run_history(ctx, res, plates, k, strat, rng, lines if t < ctx.scale(200, 600, 300) else None, expect, meta, rounds=rounds, reuse=reuse)
+        opts = gen_opts(rng, plates)
+        run_history(ctx, res, plates, k, strat, rng, lines if t < ctx.scale(200, 600, 300) else None, expect, meta, rounds=rounds, reuse=reuse, opts=opts)
         res.traces_validated += 1
         if t < 2:
             res.sample({"kind": "history", "k": k, "counts": counts, "strategy": strat})
@@ -390,7 +505,7 @@ def run(ctx, res):
     for v in vecs:
         for k in (1, 2, 3):
             plates = gen_plates(rng, v, shuffle=True)
-            explore_all(ctx, res, plates, k, lines, expect, meta, rng, line_rate=ctx.scale(0.05, 0.02, 0.02))
+            explore_all(ctx, res, plates, k, lines, expect, meta, rng, line_rate=ctx.scale(0.05, 0.02, 0.02), opts=gen_opts(rng, plates))
             res.count("exhaustive.screens")
 
     # ---------- C. multi-sample plates -----------------------------------------------------------
@@ -416,6 +531,7 @@ def run(ctx, res):
         res.evaluations += 1
         res.count("multi.refused" if err else "multi.not_shown_to_policy")
         c = {"kind": "history", "plates": plates, "k": k, "picks": batch}
+        check_mutations(res, c)
         involved = [d for d in desc if d[0] in batch or not d[2]]
         if any(len(d[1]) != 1 for d in involved):
             oracle_state(res, c, desc, k, batch, el, err, ret)
@@ -472,6 +588,6 @@ def replay(ctx, case, res):
     _quiet()
     if case.get("kind") == "history":
         run_history(ctx, res, case["plates"], case["k"], "random", ctx.subrng("replay"), None, None, None, picks=case.get("picks", []),
-                    prior=case.get("prior"), reuse=bool(case.get("reuse")))
+                    prior=case.get("prior"), reuse=bool(case.get("reuse")), opts=case.get("opts"))
     else:
         run(ctx, res)
